@@ -12,12 +12,10 @@ from . import common as C
 THEOREMS = ["index_exact", "index_const_exact", "subslice_exact", "substring_exact_partial", "substring_open_counterexample",
             "substring_open_partial", "makeslice_exact", "slice_to_array_exact", "map_store_exact", "quo_exact", "rem_exact",
             "close_counterexample", "close_exact_partial", "iface_eq_exact", "assert_exact", "checks_exact_partial",
-            "checks_exact_counterexample"]
-try:
-    from .c08_theorems import EXTRA_THEOREMS  # optional split (kept in this file normally)
-    THEOREMS += EXTRA_THEOREMS
-except Exception:
-    pass
+            "checks_exact_counterexample", "recover_depth_arith", "recover_depth", "recover_depth_forwarding_counterexample",
+            "emu_replaced", "ref_replaced", "emu_builtin", "ref_builtin", "emu_forward", "ref_forward", "emu_goexit", "ref_goexit",
+            "defer_refines_counterexample_replaced", "defer_refines_counterexample_builtin", "defer_refines_counterexample_forward",
+            "defer_refines_counterexample_goexit"]
 
 # ------------------------------------------------------------------------------------------------------------
 # mini-language scripts (GV.Model.Defer)
@@ -265,7 +263,9 @@ def render_script_funcs(sid, script):
         k, b = f.split(":")
         named = k == "n"
         name = "S%sF%d" % (sid, i)
-        hdr = "func (PT) %s(arg int, outer *int) (r int) {" % name if named else "func (PT) %s(arg int, outer *int) int {\n\tr := 0" % name
+        # noinline: gc inlines small functions into the wrapper it generates for `defer f(args)`, which makes a recover()
+        # one call deeper succeed natively (not what the specification says)
+        hdr = "//go:noinline\n" + ("func (PT) %s(arg int, outer *int) (r int) {" % name if named else "func (PT) %s(arg int, outer *int) int {\n\tr := 0" % name)
         lines = [hdr, '\tprintln("run", %d, arg)' % i]
         for t in [t for t in b.split(",") if t]:
             c = t[0]
@@ -405,11 +405,12 @@ func try(kind string, a, b, c int, f func() int) {
 		}
 	}()
 	v := f()
-	println(kind, a, b, c, "ok", v)
+	println(kind, a, b, c, "ok", v+zero)
 }
 
 func ev(tag string, v int) int { println("eval", tag); return v }
 
+var zero = 0
 var base = []int{10, 11, 12, 13, 14}
 var arr = [3]int{20, 21, 22}
 var str = "abc"
@@ -481,7 +482,7 @@ func all(a, b, c int) {
 	try("div", a, b, c, func() int { return a / b })
 	try("rem", a, b, c, func() int { return a %% b })
 	try("div8", a, b, c, func() int { return int(int8(a) / int8(b)) })
-	try("remu", a, b, c, func() int { return int(uint32(a+8) %% uint32(b+2)) })
+	try("remu", a, b, c, func() int { return int(uint32(a+100) %% uint32(b+2)) })
 	try("div64", a, b, c, func() int { return int(int64(a) / int64(b)) })
 	try("divassign", a, b, c, func() int { x := a; x /= b; return x })
 	try("s2a", a, b, c, func() int { x := [3]int(mk(a)); return len(x) })
@@ -615,7 +616,13 @@ func findings(a, b, c int) {
 		}
 		return p[mod(b, 3)]
 	})
-	try("shift", a, b, c, func() int { return 1 << a })
+	try("shift", a, b, c, func() int {
+		n := a
+		if n > 20 {
+			n = 20
+		}
+		return 1 << n
+	})
 	try("mapkey", a, b, c, func() int {
 		m := map[interface{}]int{}
 		m[iv(mod(a, 7))] = 1
@@ -655,6 +662,8 @@ func main() {
 # known divergences of compiled check programs: (kind, js class, go class) -> signature
 PROG_FINDINGS = {
     ("close", "ok", "panic:rt:close of nil channel"): "C08 program close nil-channel no-panic",
+    # the first close(nil) marks the shared $chanNil closed: later ones panic with the wrong message
+    ("close", "panic:rt:close of closed channel", "panic:rt:close of nil channel"): "C08 program close nil-channel no-panic",
     ("nilparr_idx", "ok", "panic:rt:invalid memory address or nil pointer dereference"): "C08 program nil-array-pointer-index no-panic",
     ("str_lo", "ok", "panic:rt:slice bounds out of range"): "C08 program string-slice-open-high low>len no-panic",
     ("shift", "ok", "panic:rt:negative shift amount"): "C08 program negative-shift no-panic",
@@ -686,13 +695,13 @@ def case_class(line):
 def check_programs(chk, tier):
     from . import progs
     rng = chk.rng
-    nprog = 6 if tier == "thorough" else 2
+    nprog = 6 if tier == "thorough" else 1
     jobs = []
     bvals = [-2, -1, 0, 1, 2, 3, 4, 5, 6]
     for k in range(nprog):
         rows = [(a, b, c) for a in (-1, 0, 2, 3, 4, 5, 6) for b in (0, 3) for c in (3,)][: 10]
         rows += [(-1, -1, -1), (0, 0, 0), (3, 3, 3), (5, 5, 5), (6, 6, 6), (0, 3, 5), (0, 3, 6), (1, 0, 5), (2, 3, 2), (3, 5, 5), (0, 5, 5), (0, 6, 6),
-                 (4, 4, 5), (4, 5, 5), (-128, -1, 0), (-2147483648, -1, 0), (7, 0, 0), (0, 7, 1), (9, 4, 4), (10, 9, 1), (8, 8, 8)]
+                 (4, 4, 5), (4, 5, 5), (-7, 2, 0), (7, -2, 0), (7, 0, 0), (0, 7, 1), (9, 4, 4), (10, 9, 1), (8, 8, 8)]
         for _ in range(60 if tier == "thorough" else 40):
             rows.append((rng.choice(bvals), rng.choice(bvals), rng.choice(bvals)))
         for _ in range(8):
@@ -728,6 +737,8 @@ def check_programs(chk, tier):
                         sig = None
                 elif kind == "order_mapstore" and nc.startswith("panic:rt:assignment to entry in nil map") and ne == ["eval key", "eval val"] and je == ["eval key"]:
                     sig = "C08 program nil-map-store panics-before-rhs-evaluated"
+                if kind == "order_idxstore" and jl == nl and nc.startswith("panic:rt:index out of range") and ne == ["eval i", "eval v"] and je == ["eval i"]:
+                    sig = "C08 program index-store panics-before-rhs-evaluated"
                 if jl != nl and kind == "order_mapstore" and jc == nc:
                     sig = "C08 program nil-map-store panics-before-rhs-evaluated" if je == ["eval key"] else None
                 chk.add_mismatch("program-checks:" + v, json.dumps({"id": j["id"], "case": nl, "go_evals": ne}),
@@ -759,8 +770,11 @@ func show(tag string, r interface{}) {
 		println(tag, s)
 	} else if e, ok := r.(runtime.Error); ok {
 		m := e.Error()
-		if len(m) > 34 {
-			m = m[:34]
+		if len(m) >= 15 && m[:15] == "runtime error: " {
+			m = m[15:]
+		}
+		if len(m) > 18 {
+			m = m[:18]
 		}
 		println(tag, "runtime.Error", m)
 	} else if e, ok := r.(error); ok {
@@ -995,6 +1009,8 @@ SCENARIO_TAILS = [
 
 PROG_WITNESS = {
     # id: (body of main-called function, signature)
+    "blocked28": ('println(scenario(28))', "C08 program recover-after-blocking-deferred-call remaining-deferred-skipped"),
+    "blocked29": ('println(scenario(29))', "C08 program recover-after-blocking-deferred-call remaining-deferred-skipped"),
     "replaced": ('defer func() { show("replaced outer", recover()) }()\n\tdefer func() { panic("second") }()\n\tpanic("first")',
                  "C08 program replaced-panic-recovered first-panic-resumes"),
     "builtin": ('defer func() { show("outer", recover()) }()\n\tdefer recover()\n\tpanic("x")', "C08 program defer-recover-builtin recovers"),
@@ -1009,7 +1025,7 @@ def scenario_programs(chk, tier, scripts):
     from . import progs
     rng = chk.rng
     jobs, meta = [], []
-    ks = list(range(33))
+    ks = [k for k in range(33) if k not in (28, 29)]   # 28/29 (blocking deferred call) are a recorded finding: run as witnesses
     for i, (tail, _) in enumerate(SCENARIO_TAILS):
         order = ks[:]
         if i > 0:
@@ -1019,18 +1035,19 @@ def scenario_programs(chk, tier, scripts):
         meta.append(("scenario", None, None))
     for wid, (body, sig) in PROG_WITNESS.items():
         src = SCENARIOS % {"ks": "", "tail": "w()"} + "\nfunc w() {\n\t" + body + "\n}\n"
-        jobs.append({"id": "wit-" + wid, "files": {"main.go": src}, "variants": ["plain", "minify"], "native": True, "timeout": 600})
+        jobs.append({"id": "wit-" + wid, "files": {"main.go": src}, "variants": ["plain", "minify"] if tier == "thorough" else ["plain"], "native": True, "timeout": 600})
         meta.append(("witness", sig, None))
     # rendered scripts: those both semantics end normally are batched; the others get a program each
     rend = [s for s in scripts if "x" not in re.sub(r"[^a-z]", "", s.replace("x", "x")) or True]
     rend = [s for s in scripts if not any(t.startswith("x") for f in s.split("|") for t in f.split(":")[1].split(","))]
-    nbatch = 60 if tier == "thorough" else 16
+    nbatch = 60 if tier == "thorough" else 10
     nsingle = 40 if tier == "thorough" else 8
     pick = rend[:len(WITNESSES) + len(FIXED_SCRIPTS)] + rng.sample(rend[len(WITNESSES) + len(FIXED_SCRIPTS):], min(len(rend) - 40, nbatch * 12))
     emu = C.run_driver("C08", ["defer emu " + s for s in pick])
     ref = C.run_driver("C08", ["defer ref " + s for s in pick])
-    normal = [(s, e, r) for s, e, r in zip(pick, emu, ref) if e.endswith(" normal") and r.endswith(" normal")]
-    other = [(s, e, r) for s, e, r in zip(pick, emu, ref) if not (e.endswith(" normal") and r.endswith(" normal"))]
+    normal = [(s, e, r) for s, e, r in zip(pick, emu, ref) if e == r and r.endswith(" normal")]
+    other = [(s, e, r) for s, e, r in zip(pick, emu, ref) if not (e == r and r.endswith(" normal"))]
+    other.sort(key=lambda t: t[1] == t[2])     # predicted divergences first
     for b in range(nbatch):
         group = normal[b * 10:(b + 1) * 10]
         if not group:
@@ -1056,8 +1073,9 @@ def scenario_programs(chk, tier, scripts):
                 exp_lines += l
                 exp_end = end
             if (exp_lines, exp_end) != (nat[0], nat[1]):
-                raise RuntimeError("MODEL-MISMATCH: reference semantics disagree with native Go on %s\nmodel : %s %s\nnative: %s %s" % (
-                    [g[0] for g in group], exp_lines[-12:], exp_end, nat[0][-12:], nat[1]))
+                dd = next((i for i, (a, b) in enumerate(zip(exp_lines, nat[0])) if a != b), min(len(exp_lines), len(nat[0])))
+                raise RuntimeError("MODEL-MISMATCH: reference semantics disagree with native Go on %s at line %d\nmodel : %s %s\nnative: %s %s" % (
+                    [g[0] for g in group], dd, exp_lines[max(0, dd - 6):dd + 4], exp_end, nat[0][max(0, dd - 6):dd + 4], nat[1]))
             nscripts += len(group)
         for v in j["variants"]:
             obs = progs.observe_js(r["runs"][v])
